@@ -317,6 +317,8 @@ theorem evaluate_err (s : St) (e : Err) (h : evaluate s = .error e) : e = errSub
     all_goals simp_all
   · repeat' split at h
     all_goals simp_all
+  · repeat' split at h
+    all_goals simp_all
   · split at h
     · simp_all
     · split at h
